@@ -51,9 +51,10 @@ def cases(ctx):
         for li in range(len(INNER_LINES)):
             for eol in ("\n", "\r\n"):
                 for fmt in ("toml", "cfg"):
-                    if ctx.mine(k):
-                        yield {"kind": "inner-match", "i": ii, "line": li, "eol": eol, "fmt": fmt}
-                    k += 1
+                    for third in (False, True):
+                        if ctx.mine(k):
+                            yield {"kind": "inner-match", "i": ii, "line": li, "eol": eol, "fmt": fmt, "third": third}
+                        k += 1
 
 
 def run_inner(ctx, case):
@@ -62,19 +63,23 @@ def run_inner(ctx, case):
     tmpl = INNER_LINES[case["line"]]
     lines = ["# notes", tmpl.format(v=cur, p=pep), "", f"pip install pkg=={pep}", f"tag {cur}", "end"]
     want = eol.join(ln.replace(cur, new).replace(pep, new_pep) for ln in lines)
+    # optionally a third pattern, listed FIRST, whose only occurrence is further down (the `tag ...` line): the spans
+    # collected so far are then not in line order
+    pats = (["tag {version}"] if case.get("third") else []) + ["{version}", "{pep440_version}"]
     if case["fmt"] == "toml":
         cfg = (f'[bumpver]\ncurrent_version = "{cur}"\nversion_pattern = "{vp}"\n\n[bumpver.file_patterns]\n'
-               '"bumpver.toml" = [\'current_version = "{version}"\']\n"README.md" = ["{version}", "{pep440_version}"]\n')
+               '"bumpver.toml" = [\'current_version = "{version}"\']\n"README.md" = ['
+               + ", ".join(projects.toml_str(x) for x in pats) + "]\n")
         cfg_name = "bumpver.toml"
     else:
         cfg = (f"[bumpver]\ncurrent_version = {cur}\nversion_pattern = {vp}\n\n[bumpver:file_patterns]\n"
-               "setup.cfg =\n    current_version = {version}\nREADME.md =\n    {version}\n    {pep440_version}\n")
+               "setup.cfg =\n    current_version = {version}\nREADME.md =\n" + "".join(f"    {x}\n" for x in pats))
         cfg_name = "setup.cfg"
     d = harness.new_project({cfg_name: cfg.encode(), "README.md": eol.join(lines).encode()})
     try:
         res = harness.invoke(["update", "--no-fetch"] + uargs, cwd=d)
         ctx.count("updates_where_a_pattern_also_matches_inside_another_occurrence")
-        ctx.evaluated(("inner-match", vp, case["line"], eol, case["fmt"]), sample={"line": lines[1], "argv": res.args})
+        ctx.evaluated(("inner-match", vp, case["line"], eol, case["fmt"], bool(case.get("third"))), sample={"line": lines[1], "patterns": pats, "argv": res.args})
         a = res.record_value("New Version: ")
         if res.exit_code != 0 or a != new:
             ctx.violation("other:inner_match_update_failed", f"{vp!r} {lines[1]!r}: exit {res.exit_code}, announced {a!r} (expected "
@@ -82,7 +87,7 @@ def run_inner(ctx, case):
             return
         got = harness.snapshot(d)["README.md"].decode()
         if got != want:
-            ctx.violation("other:stale-or-wrong-occurrence", f"patterns ['{{version}}', '{{pep440_version}}'] (vp {vp!r}): after the "
+            ctx.violation("other:stale-or-wrong-occurrence", f"patterns {pats} (vp {vp!r}): after the "
                           f"update to {new!r} the file reads {got!r}, expected {want!r}", case=case)
     finally:
         harness.rm_dir(d)
